@@ -67,6 +67,9 @@ Theorem C02_deferred_retried_in_own_directory : forall c d src dst rest w cwd,
     match chdir (w_fs w) d with
     | None => (w, cwd, Some ExOther)
     | Some cwd1 =>
+      match backlog_verify (c_var c) (w_fs w) d src dst with
+      | Some e => (w, cwd1, Some e)
+      | None =>
       match renamer c w cwd1 src dst false with
       | (w1, None) => second_pass c rest w1 cwd1
       | (w1, Some e) =>
@@ -76,6 +79,7 @@ Theorem C02_deferred_retried_in_own_directory : forall c d src dst rest w cwd,
           | (w2, Some e2) => (w2, cwd1, Some e2)
           end
         else (w1, cwd1, Some e)
+      end
       end
     end.
 Proof. exact deferred_retried_in_own_directory. Qed.
